@@ -127,7 +127,8 @@ def getRead (j : Json) : Except String Read := do
   match j with
   | Json.arr [Json.str "next"] => pure .next
   | Json.arr [Json.str "take", k] => pure (.take (← getNat k))
-  | _ => throw "C01: read = [\"next\"] | [\"take\", k]"
+  | Json.arr [Json.str "peek", k] => pure (.peek (← getNat k))
+  | _ => throw "C01: read = [\"next\"] | [\"take\", k] | [\"peek\", k]"
 
 def getBadTable (j : Json) : Except String (List Term) :=
   match optField j "bad" with
@@ -155,11 +156,15 @@ def handleE (entry : String) (j : Json) : Except String Json := do
                       ("outs", arr outJson r.1),
                       ("queried", arr (arr termJson) (it.drainQ bad n)),
                       ("script", arr readOutJson (it.script bad reads).1),
+                      ("scriptEnd", arr readOutJson (untilEnd reads (it.script bad reads).1)),
                       ("unread", unreadJson r.2.unread)]
         | .ok (.scalar c) => Json.mkObj [("kind", Json.str "scalar"), ("value", termJson c)]
         | .ok (.ignored c) => Json.mkObj [("kind", Json.str "ignored"), ("value", termJson c)]
     let spec := Json.mkObj [("sort", Json.str (sortName p.sort)), ("genFree", Json.bool p.genFree),
-                            ("outs", arr outJson (p.outs bad n)), ("outsP", arr outJson (p.outsP bad n))]
+                            ("outs", arr outJson (p.outs bad n)), ("outsP", arr outJson (p.outsP bad n)),
+                            ("scriptCost", Json.int (readsCost reads)),
+                            ("script", arr readOutJson (scriptOuts reads (p.outs bad n))),
+                            ("scriptP", arr readOutJson (scriptOuts reads (p.outsP bad n)))]
     pure <| Json.mkObj [("model", model), ("spec", spec)]
   | "bcastE" =>
     let f := nm (← getStr (← field j "f"))
@@ -290,6 +295,27 @@ def handle (entry : String) (j : Json) : Except String Json := do
         ("base", str sp.base), ("reflected", Json.bool sp.reflected), ("arity", Json.int sp.arity)]) specTable
     pure <| Json.mkObj [("model", Json.mkObj [("ops", opsJ), ("installed", instJ)]), ("spec", specJ)]
 
+  | "opget" =>
+    -- `list(OpMethod.get(keys, without))`; keys: {"s": string} | {"f": dunder attribute of `operator`} | {"i": int}
+    let getKey (k : Json) : Except String OpKey := do
+      match optField k "s", optField k "f", optField k "i" with
+      | some v, _, _ => pure (.str (nm (← getStr v)))
+      | _, some v, _ => pure (.func (nm (← getStr v)))
+      | _, _, some v => pure (.int (← getNat v))
+      | _, _, _ => throw "C01: key = {s} | {f} | {i}"
+    let keys ← getList getKey (← field j "keys")
+    let wo ← getList getKey (← field j "without")
+    let ops := initializeOps ALV.Gen.OpTable.table
+    let opJ (o : OpMethod) : Json := Json.arr [str o.dname, str o.name, str o.symbol]
+    let model : Json := match getOpsK ops keys wo with
+      | none => Json.mkObj [("err", Json.str "ValueError")]
+      | some l => Json.mkObj [("ops", arr opJ l)]
+    -- spec: the entries filed under the keys, in the order asked for, minus those filed under a `without` key
+    let spec : Json :=
+      if (keys ++ wo).any (fun k => (OpMethod.under ops k).isEmpty) then Json.mkObj [("err", Json.str "ValueError")]
+      else Json.mkObj [("ops", arr opJ ((keys.flatMap (OpMethod.under ops)).filter fun o =>
+              !(wo.any fun k => o.keysK.contains k)))]
+    pure <| Json.mkObj [("model", model), ("spec", spec)]
   | "meta" =>
     -- a class built with a user's subclass of AbstractOperatorOverloaderMeta
     let strs (k : String) : Except String (List Name) := do
